@@ -135,7 +135,7 @@ def universes_c06():
         # authentic events beyond what a storage engine may be able to represent (LMDB keys hold four-byte timestamps and at most
         # 511 bytes): a relay may refuse them - with a reason and without a trace - but must not acknowledge and then lose them
         E("ot", "A", 1, 13, created_at=2 ** 32, dub=True), E("ng", "A", 1, 14, created_at=-5, dub=True),
-        E("lt", "A", 1, 15, [["t", "big"]], dub=True),
+        E("lt", "A", 1, 15, [["t", "big"]], dub=True), E("bi", "A", 1, 16, [["t", "a", "huge"]], dub=True),   # (a JSON number msgpack cannot hold)
     ]
     # neighbours in the replaceable address space: same author and kind under other d values (older and newer), the same kind
     # of another author, the next kind - an acknowledged event may only give way to a newer version of its own address
@@ -332,7 +332,7 @@ def universes_c04():
 
 PALETTE_OF = {}
 
-SYMTABS = {"ack": {"nothex": "this-is-not-an-event-id", "big": "x" * 600}, "service": {"quo": "a'\"\\b\u00e4\n", "pkB": C.pubkey("B"), "bob": "bob@example.com"}, "dunicode": {"uml": "\u00e4", "umlx": "\u00e4x"},
+SYMTABS = {"ack": {"nothex": "this-is-not-an-event-id", "big": "x" * 600, "huge": 2 ** 70}, "service": {"quo": "a'\"\\b\u00e4\n", "pkB": C.pubkey("B"), "bob": "bob@example.com"}, "dunicode": {"uml": "\u00e4", "umlx": "\u00e4x"},
            "delnone": {"acoord": "30000:%s:x" % C.pubkey("A")},
            "verbatim": {"sp": " a ", "up": "ABCDEF", "num": "007", "nfc": "\u00e9", "nfd": "e\u0301"},
            "gcdigits": {"v999": "999", "vbig": "17000000150", "vz14": "01700000014", "vi14": 1700000014, "vneg": "0abc"}}
